@@ -1577,11 +1577,15 @@ func runC19(ctx *Ctx) *Result {
 	// A disagreement or sandbox error seen while 14 sandboxes (and other jobs of the machine) ran at
 	// once may be an environment failure (a hook that could not start, a time-out).  Such a case is
 	// inconclusive: it is run again alone, and only what shows again is reported.
+	reruns := 0
 	for i, cr := range results {
 		if cr == nil {
 			continue
 		}
 		if st, _ := mismatch(cr); st != "" {
+			if reruns++; reruns > 6 {
+				continue // many cases disagree: not an environment fluke, the first verdicts stand
+			}
 			again := runScenario(t, fmt.Sprintf("again%d", i), scs[i], drv)
 			if st2, _ := mismatch(again); st2 == "" {
 				again.counts["inconclusive: first run disagreed, the serial re-run did not"]++
